@@ -524,3 +524,27 @@ Proof.
   split; [repeat split; try discriminate; reflexivity|].
   vm_compute. reflexivity.
 Qed.
+
+(* A predicate step on an empty list is a miss for that list (after the "fix:" commit 20793f6: before it the
+   step raised IndexError, which left an enclosing fan-out loop and lost the selections of the sibling parents). *)
+Lemma find_pred_empty rl f root y rest par c fstr k op v :
+  split_name_index y = Ok ([], IdxPred k op v) -> pstr_eqb k s_text = false ->
+  find true rl (S f) root (y :: rest) par (Lst c []) fstr =
+  Ok (root, false, mkF par (Lst c []) None None fstr (Some (y :: rest))).
+Proof.
+  intros Hy Hk. cbn [find]. rewrite Hy. cbn [bind nonempty negb andb idx_truthy]. rewrite Hk. reflexivity.
+Qed.
+
+Theorem pred_lookup_empty fuel root x re rl dflt toks p c segs y rest k op v :
+  has_path_char x = true -> tokenize x = toks ++ y :: rest ->
+  walks root toks p (Lst c []) segs ->
+  split_name_index y = Ok ([], IdxPred k op v) -> pstr_eqb k s_text = false ->
+  2 * length toks + 1 <= fuel ->
+  dict_get_core fuel root x re rl dflt = Ok (root, if re then LRaise ExIndex else dflt).
+Proof.
+  intros Hc Ht Hw Hy Hk Hf. unfold dict_get_core. rewrite Hc, Ht.
+  destruct (find_walks_prefix rl root toks p _ segs Hw (y :: rest) ltac:(congruence) fuel root [] s_root ltac:(lia))
+    as [fuel' [H1 [H2 H3]]].
+  rewrite H3. destruct fuel' as [|f']; [lia|].
+  rewrite (find_pred_empty rl f' root y rest _ c _ k op v Hy Hk). reflexivity.
+Qed.
